@@ -46,6 +46,12 @@ def get(fields, name):
     return None
 
 
+def get_combined(fields, name):
+    """All field lines of that name as one comma separated list (RFC 7230 3.2.2)."""
+    vals = [v for n, v in fields if n == name]
+    return b', '.join(vals) if vals else None
+
+
 def content_decode(coding, raw):
     """Returns (bytes, error)."""
     coding = (coding or b'').strip().lower()
@@ -103,7 +109,14 @@ def decode(data, method='GET', eof=True, ignore_length=False):
     res['reason'] = (m.group(3) or b'').decode('latin-1').strip()
     fields = parse_fields(lines[1:])
     res['fields'] = fields
-    te = get(fields, b'transfer-encoding')
+    if 100 <= res['status'] < 200 and res['status'] != 101 and method.upper() != 'HEAD-ONLY':
+        # interim response (RFC 7231 6.2): the final response to the request follows
+        sub = decode(data[pos:], method, eof, ignore_length)
+        if sub['consumed'] is not None:
+            sub['consumed'] += pos
+        sub['interim'] = sub.get('interim', 0) + 1
+        return sub
+    te = get_combined(fields, b'transfer-encoding')
     cl = get(fields, b'content-length')
     status = res['status']
     if method.upper() == 'HEAD' or status in NO_BODY:
